@@ -373,3 +373,80 @@ Theorem resign_overwrites_stale_signatures :
   sign_with_eps pub sign H a k fetch = sign_with_eps pub sign H b k fetch.
 Proof. exact resign_same_values. Qed.
 Print Assumptions resign_overwrites_stale_signatures.
+
+(* ================================================================== *)
+(* Peer-ID spellings.  The signed payloads contain the provider and extended-provider
+   identity STRINGS as written; a different spelling of the same peer ID (base58, CIDv1 in
+   base32 / base36: peer.Decode gives the same peer) is a changed signed value: an accepted
+   advertisement whose Provider, or one entry's ID, is respelled is rejected.  Hence any
+   layer between signing and verification (encode / decode) must carry the strings byte for
+   byte -- which C13's round trip does and the check's rt / wire families observe. *)
+Theorem respelled_identity_rejected :
+  forall (pubkey sigt peerid : Type) (verify : pubkey -> bytes -> sigt -> bool) (peer_id : pubkey -> peerid)
+         (peerid_eqb : peerid -> peerid -> bool) (Hf : bytes -> bytes) (decode_pid : bytes -> option peerid),
+  (forall a b, peerid_eqb a b = true <-> a = b) -> H_injective Hf ->
+  forall (st st' : bool) (a : ad pubkey sigt) (s : peerid),
+  verify_gen verify peer_id peerid_eqb (ideal_H Hf) decode_pid st a = Ok s ->
+  (forall v, v <> a_provider a -> decode_pid v = decode_pid (a_provider a) ->
+     is_ok (verify_gen verify peer_id peerid_eqb (ideal_H Hf) decode_pid st' (upd_provider pubkey sigt a v)) = false) /\
+  (forall x l1 p l2 v, a_ext a = Some x -> x_providers x = l1 ++ p :: l2 ->
+     v <> p_id p -> decode_pid v = decode_pid (p_id p) ->
+     is_ok (verify_gen verify peer_id peerid_eqb (ideal_H Hf) decode_pid st'
+              (upd_providers pubkey sigt a x (l1 ++ upd_pid pubkey sigt p v :: l2))) = false).
+Proof. exact respelled_rejected. Qed.
+Print Assumptions respelled_identity_rejected.
+
+(* ---- ties to the Gallina regenerated from the Go source (proofs/GenTie_C05.v) ---- *)
+From Coq Require Import ZArith NArith List Bool Lia String.
+From Lib Require Import Bytes.
+From Model Require Import C05_AdSignature.
+From Proofs Require Import GenTie_Lib.
+From Gen Require Import Gen_Consts Gen_Funcs_prelude Gen_Funcs_schema.
+Import ListNotations.
+Local Open Scope Z_scope.
+From Proofs Require Import GenTie_C05.
+
+Theorem gen_tie_signaturePayload_buf : forall (pubkey sigt : Type) (a : ad pubkey sigt) (ent : bytes),
+  schema_signaturePayload_buf (a_addrs a) (a_rm a) (a_md a) (a_provider a) (link_bytes (a_prev a)) ent
+  = FFall (ad_raw a ent).
+Proof. exact GenTie_C05.tie_signaturePayload_buf. Qed.
+Print Assumptions gen_tie_signaturePayload_buf.
+
+Theorem gen_tie_extendedProviderSignaturePayload_buf :
+  forall (pubkey sigt : Type) (a : ad pubkey sigt) (x : ext pubkey sigt) (p : provider pubkey sigt) (ent : bytes),
+  schema_extendedProviderSignaturePayload_buf (a_ctx a) (x_override x) (a_provider a) (link_bytes (a_prev a)) ent
+     (p_addrs p) (p_id p) (p_md p)
+  = FFall (ep_raw a x p ent).
+Proof. exact GenTie_C05.tie_extendedProviderSignaturePayload_buf. Qed.
+Print Assumptions gen_tie_extendedProviderSignaturePayload_buf.
+
+Theorem gen_tie_ep_rm_guard : forall (pubkey sigt : Type) H (a : ad pubkey sigt) x p,
+  match schema_extendedProviderSignaturePayload_rm_guard (a_rm a) with
+  | FReturn _ _ => ep_payload H a x p = Err ERmExt
+  | FFall _ => a_rm a = false
+  | _ => False
+  end.
+Proof. exact GenTie_C05.tie_ep_rm_guard. Qed.
+Print Assumptions gen_tie_ep_rm_guard.
+
+Theorem gen_tie_oldFormat : forall advID : bytes,
+  schema_VerifySignature_oldFormat advID = FFall (negb (Nat.eqb (List.length advID) sig_size)).
+Proof. exact GenTie_C05.tie_oldFormat. Qed.
+Print Assumptions gen_tie_oldFormat.
+
+Theorem gen_tie_Sign_guard : forall (privkey pubkey sigt : Type) pub sign H (a : ad pubkey sigt) (k : privkey),
+  match schema_Sign_guard (match a_ext a with None => true | Some _ => false end) with
+  | FReturn _ _ => sign_plain pub sign H a k = Err EHasExt
+  | FFall _ => a_ext a = None
+  | _ => False
+  end.
+Proof. exact GenTie_C05.tie_Sign_guard. Qed.
+Print Assumptions gen_tie_Sign_guard.
+
+Theorem gen_Validate_caps : forall ctx md : list N,
+  schema_Advertisement_Validate ctx md =
+  if (schema_MaxContextIDLen <? len ctx) then Some "context id too long"%string
+  else if (schema_MaxMetadataLen <? len md) then Some "metadata too long"%string
+  else None.
+Proof. exact GenTie_C05.Validate_caps. Qed.
+Print Assumptions gen_Validate_caps.
